@@ -253,7 +253,7 @@ func PartitionInputsAreRanges(p *core.Program, r *core.Report, rule string) {
 			return true
 		})
 	}
-	r.Floor(rule, 3)
+	r.Floor(rule, 2) // the engine-level append and at least one Split append (inlining the per-rule helper merges identical constructs)
 	_ = n
 }
 
